@@ -12,7 +12,8 @@ RULE = ("templates = typed filters of the ORM fragment (all operators, in-lists,
         "with SQL metacharacters and a unique marker, integers >= 10^6 ...); compiled (not executed) through "
         "Django sql_with_params, SQLAlchemy ORM and Core compile. Oracle: both assignments give the identical SQL "
         "string and no sentinel's text occurs in it (how many sentinels reach the parameter list is measured: an ORM may fold constant sub-conditions away). Non-trivial: >= 1 "
-        "string hole inside a function argument or list, or >= 3 holes; distinct by (template, backend).")
+        "string hole inside a function argument or list, or >= 3 holes; distinct by (template, backend)."
+        " On SQLAlchemy, assignment A gives all elements of an in-list the same value (the SQL must not depend on whether values repeat); every second string of assignment B is plain (the SQL must not depend on whether metacharacters occur).")
 ASSUMPTIONS = ["SQL text and parameters are read from Django's Query.sql_with_params() and SQLAlchemy's compiled statement (sqlite dialect)"]
 
 FR = gen_typed.Fragment("orm", funcs=gen_typed.STRING_FUNCS + ["year", "month", "day", "hour", "minute", "second",
